@@ -26,7 +26,7 @@ CHECKS = {
    note="Double transmit timestamps are unrepresentable through the public API. A vacuity guard (clean in-order exchange must yield two measurements) exits 2, not 1.",
    technique="schedule enumeration + sampled schedules with an exact single-exchange oracle"),
  "C14": dict(level="exploration", design="DESIGN.md §4 C14",
-   text="Schedule exploration on a peer-to-peer port in every state in which the exchange runs: exhaustive enumeration of all schedules up to length 6 (thorough 7) over {delay timer, tx timestamp, Pdelay_Resp/Follow_Up of responders R1 and R2, receipt timer} plus sampled schedules (one/two-step, duplicates, stale ids, other requesters, timers, BMCA, clean exchanges); exact integer oracle per (request, first responder) and the fault rules: second responder => Faulty at once and never used; while Faulty no master traffic; Faulty is left only through a completed peer-delay exchange; a single-responder exchange clears it.",
+   text="Schedule exploration on a peer-to-peer port in every state in which the exchange runs: exhaustive enumeration of all schedules up to length 6 (thorough 7) over {delay timer, tx timestamp, Pdelay_Resp/Follow_Up of responders R1 and R2, receipt timer} plus sampled schedules (one/two-step, duplicates, stale ids, other requesters, late transmit timestamps of superseded requests, timers, BMCA, clean exchanges) and the same schedules after ~65 530 request rounds with a generated crossing at the 16-bit id wrap; exact integer oracle per (request, first responder) and the fault rules: second responder => Faulty at once and never used; while Faulty no master traffic; Faulty is left only through a completed peer-delay exchange; a single-responder exchange clears it.",
    note="Whether the port may already recover through the faulted exchange when its first responder completes it is not asserted either way.",
    technique="schedule enumeration + sampled schedules with exact arithmetic oracle and state invariants"),
  "C03": dict(level="exploration", design="DESIGN.md §4 C03",
@@ -46,43 +46,43 @@ CHECKS = {
    note="Genuine ties are skipped; timePropertiesDS after M1/M2 is not asserted; candidates are arranged so that IEEE's and statime's qualification bookkeeping agree (that bookkeeping is C06's subject).",
    technique="differential property-based testing against a reference BMCA + exhaustive small lattice + metamorphic order-independence"),
  "C06": dict(level="exploration", design="DESIGN.md §4 C06",
-   text="Time-stepped model-based testing with live host timers: generated per-interval arrival patterns (absent/once/duplicated/reordered/stale, isolated single Announces, ids across 65535->0, stepsRemoved >= 255, own clock identity, up to 10 masters) and BMCA phases; after every BMCA an independent time-based reception record decides the necessary conditions (>= 2 receptions within 4 intervals + one BMCA period, stepsRemoved < 255, foreign identity; Passive must be explainable), the expiry bound (silent for 6 intervals + 1 BMCA period => not parent) and, for clean patterns with <= 8 masters, that the steadily announcing best master is the parent.",
+   text="Time-stepped model-based testing with live host timers: generated per-interval arrival patterns (absent/once/duplicated/reordered/stale, isolated single Announces, ids across 65535->0, stepsRemoved >= 255, own clock identity, up to 10 masters) and BMCA phases; after every BMCA an independent time-based reception record decides the necessary conditions (>= 2 receptions within 4 intervals + one BMCA period, stepsRemoved < 255, foreign identity; Passive must be explainable), the expiry bound (silent for 6 intervals + 1 BMCA period => not parent) and, for clean patterns with <= 8 masters, that the steadily announcing best master is the parent. A second part runs one or two masters announcing in every interval over 33 000-80 000 announce intervals (a complete sequence-number cycle and a half) under the same oracle; a second idle port makes the BMCA period 1/2, 1/4 or 1/8 of the announce interval in a third of the cases.",
    note="The sufficient clause is only asserted when no better-or-equal competitor was heard within 7 intervals + 2 BMCA periods (falling back to being master in between is allowed by the statement; see DESIGN.md section 8).",
    technique="model-based property testing over arrival schedules with a time-based reference record"),
  "C11": dict(level="exploration", design="DESIGN.md §4 C11",
-   text="Model-based testing on boundary clocks with 2-3 ports: clean Announce streams from a synthetic parent and a rival whose contents change (whole-content and single-field changes), parent silence and take-over, receipt time-outs, run-time quality changes, BMCA and announce timers in generated order. Every emitted Announce (decoded by the reference codec) must (A) equal the data set getters read just before the call, (B) while a port is slave equal the parent's last delivered Announce with stepsRemoved+1, (C) when it names the instance as grandmaster carry the own priorities, stepsRemoved 0, the clock quality in force at the last completed BMCA (or a newer one) and own time properties; when the last BMCA left a master and no slave port the grandmaster named must be the instance itself.",
-   note="Both leap flags from the parent: the data set keeps Leap59. UTC offset compared only when flagged valid.",
+   text="Model-based testing on boundary clocks with 2-3 ports: clean Announce streams from a synthetic parent and a rival whose contents change (whole-content and single-field changes), parent restarts (sequence id jumping back), parent silence and take-over, receipt time-outs, run-time quality changes, BMCA and announce timers in generated order. Every emitted Announce (decoded by the reference codec) must (A) equal the data set getters read just before the call, (B) while a port is slave equal the parent's last delivered Announce with stepsRemoved+1, (C) when it names the instance as grandmaster carry the own priorities, stepsRemoved 0, the clock quality in force at the last completed BMCA (or a newer one) and own time properties; when the last BMCA left a master and no slave port the grandmaster named must be the instance itself.",
+   note="Both leap flags from the parent: the data set keeps Leap59. UTC offset compared only when flagged valid. One known finding (BMCA after a parent restart reinstates the pre-restart contents) is classified by its own signature and reported as KNOWN-FINDING.",
    technique="stateful model-based property testing with a reference of the expected Announce contents"),
  "C13": dict(level="exploration", design="DESIGN.md §4 C13",
    text="The Kalman and basic filters are driven directly with generated, physically consistent but adversarial measurement sequences (offsets 0..+-1e9 s, identical samples, equal event times, time running backwards, dt = 0, offset jumps, interleaved update() calls, intermittently failing clock, applied steps fed back), Kalman configurations drawn around the default; every programmed frequency must be finite and within +-max_freq_offset, every Kalman step at least the step threshold, no panic, estimates finite. A port-level part (C08-style histories with the Kalman filter) asserts at most one final in-bound frequency command in the call in which a port stops being slave and none afterwards.",
    note="Samples whose event time minus offset would be negative are skipped.",
    technique="property-based testing of the servo with invariant oracle on the recorded clock commands"),
  "C15": dict(level="exploration", design="DESIGN.md §4 C15",
-   text="Model-based testing of a boundary clock (slave port + 1-3 master ports sharing the daemon's TlvForwarder wired as in main.rs, or a literal-contract provider): generated Announces from parent / other acceptable / unacceptable senders with TLVs of every type class and sizes at and around the remaining room, frames to 2048 bytes, path traces of 0..200 identities with and without the own identity, forwarder lag beyond 128 entries; every emitted Announce is compared with an exact reference forwarding queue per master port (order, at most once, unmodified, only parent + propagating, every TLV that fits, PATH_TRACE = parent's path + own identity, size <= 1024, decodable, always sent); loop Announces must have no effect at all. Plus an exhaustive size sweep (every even length 0..1100 x 11 path settings).",
-   note="One known finding (received PATH_TRACE TLV blocking the queue for paths >= 58 identities) is classified by its own signature and reported as KNOWN-FINDING. Under forwarder overflow only order / at-most-once / integrity are asserted.",
-   technique="model-based property testing against a reference queue + exhaustive size sweep"),
+   text="Model-based testing of a boundary clock (slave port + 1-3 master ports sharing the daemon's TlvForwarder wired as in main.rs, or a literal-contract provider): generated Announces from parent / other acceptable / unacceptable senders with TLVs of every type class and sizes at and around the remaining room, frames to 2048 bytes, path traces of 0..200 identities with and without the own identity, forwarder lag beyond 128 entries; every emitted Announce is compared with an exact reference forwarding queue per master port (order, at most once, unmodified, only parent + propagating, every TLV that fits, PATH_TRACE = parent's path + own identity, size <= 1024, decodable, always sent; under overflow the exact contents of the 128-slot broadcast channel); loop Announces must have no effect at all. Plus an exhaustive size sweep (every even length 0..1100 x 11 path settings). Plus an end-to-end part against the real statime daemon binary built from /repo: two-port boundary clock in a private network namespace (unshare -n, veth pairs, PTP over Ethernet, real time), the harness is the parent on port 1 and listens on port 2; the TLVs forwarded must be exactly the parent's propagating TLVs, once each, unmodified and in order.",
+   note="One known finding (received PATH_TRACE TLV blocking the queue for paths >= 58 identities) is classified by its own signature and reported as KNOWN-FINDING. The end-to-end part needs root and network namespaces; where they are unavailable it is skipped with a note in the evidence (the other parts still decide); cases in which the daemon is not (Slave, Master) before and after are inconclusive, never violations.",
+   technique="model-based property testing against a reference queue + exhaustive size sweep + generated black-box histories against the real daemon process"),
  "C12": dict(level="exploration", design="DESIGN.md §4 C12",
    text="Bounded-horizon progress under a faithful host timer model: a generated prefix history (timers fire only if armed, at their deadline; lost transmit timestamps; masters coming and going; P2P faults and recoveries; run-time slave-only switches) is continued with (a) total silence and (b) a steadily announcing better master, both driven by the daemon's loop (timers as armed, periodic BMCA, immediate transmit timestamps). (a): every non-faulty port is Master within 2*receiptTimeout+6 announce intervals and then emits Announce and Sync/Follow_Up at the configured rates (+-1 per 8 intervals); slave-only instances listen with a live receipt timer. (b): port 1 is slave of that master within the bound and its delay requests are never more than two delay intervals apart.",
    note="Liveness is checked as bounded-horizon safety with explicit bounds. One known finding (port recovered from Faulty without receipt timer) has its own signature and a deterministic reproducer.",
    technique="stateful property-based testing with a discrete-event host model and bounded-progress oracle"),
  "C17": dict(level="exploration", design="DESIGN.md §4 C17",
-   text="Three generated-input mechanisms: (1) the history generators of six other checks re-run over a lock implementation that records any acquisition requested while the lock is held; (2) dedicated histories whose parent Announces carry a version number encoded redundantly in every data set field, with parent/time-properties snapshots taken at every outermost exclusive release (exactly the states another thread can observe) and required to be homogeneous; (3) schedule injection with real threads over an RwLock-based lock that parks set_clock_quality / set_slave_only after each of their lock releases while BMCA rounds run, with a serialisability oracle (final state must equal one of the two serial orders) and homogeneous observer snapshots.",
+   text="Three generated-input mechanisms: (1) the history generators of six other checks re-run over a lock implementation that records any acquisition requested while the lock is held; (2) dedicated histories whose parent Announces carry a version number encoded redundantly in every data set field, with parent/current/time-properties snapshots taken at every outermost exclusive release (exactly the states another thread can observe) and required to be homogeneous, each by itself and across the three data sets (path trace on with parent paths up to 200 entries in a third of the cases); (3) schedule injection with real threads over an RwLock-based lock that parks set_clock_quality / set_slave_only after each of their lock releases while BMCA rounds run, with a serialisability oracle (final state must equal one of the two serial orders) and homogeneous observer snapshots.",
    note="Interleavings are owned at lock-release granularity only (sound because all shared state is behind the lock); the OS scheduler is not otherwise controlled. BMCA cannot overlap port handlers by type state.",
    technique="property-based testing with a lock-discipline monitor, release-point snapshot invariants and deterministic schedule injection with a serialisability oracle"),
  "C19": dict(level="exploration", design="DESIGN.md §4 C19",
-   text="Generated instance states reached in simulation plus directly generated observable-state JSON over the full field ranges, checked in three stages: (1) the ObservableInstanceState assembled as the daemon's run() does against the configuration, the Announce a master port emits (an independent view of the live data sets), the port's behaviour and the slave port's filter estimates; (2) byte-identical and field-equal serde_json round trip; (3) black box: the statime-metrics-exporter binary built from /repo receives the JSON on a Unix socket and every sample of its HTTP response is parsed by an independent HTTP + OpenMetrics text parser and compared with the value derived from the state under the meaning the family's own metadata states.",
+   text="Generated instance states reached in simulation plus directly generated observable-state JSON over the full field ranges, checked in three stages: (1) the ObservableInstanceState assembled as the daemon's run() does against the configuration, the Announce a master port emits (an independent view of the live data sets), the port's behaviour and the slave port's filter estimates; (2) byte-identical and field-equal serde_json round trip; (3) black box: the statime-metrics-exporter binary built from /repo receives the JSON on a Unix socket (a fifth of the scrapes preceded by a scrape the client aborts while the exporter is working on it) and every sample of its HTTP response is parsed by an independent HTTP + OpenMetrics text parser and compared with the value derived from the state under the meaning the family's own metadata states.",
    note="Stage 3 uses wall-clock socket time-outs (time-out = exit 2). uptime_seconds values are chosen exactly representable (serde_json's default float parser is not round-trip exact).",
    technique="property-based testing: differential (state vs Announce), round-trip, and black-box differential against an independent exposition-format parser"),
  "C20": dict(level="fault_enumeration", design="DESIGN.md §4 C20",
-   text="Fault enumeration against the real exporter subprocess: every sequence of length 1 and 2 over the alphabet of (client behaviour x observation-socket behaviour) pairs is executed exhaustively (reduced alphabet in quick, full in thorough), sequences of length 3-4 are sampled; each is followed by a probe request that must receive a complete 200 response within a deadline, well-formed requests inside the sequence must get 200/500, and on a miss the process is classified as exited / spinning (CPU time from /proc) / hanging.",
+   text="Fault enumeration against the real exporter subprocess: every sequence of length 1 and 2 over the alphabet of (client behaviour x observation-socket behaviour) pairs is executed exhaustively (reduced alphabet in quick, full in thorough), sequences of length 3-4 are sampled, and every disturbing client is repeated 14 (thorough also 40) times in a row; each is followed by a probe request that must receive a complete 200 response within a deadline, well-formed requests inside the sequence must get 200/500, and on a miss the process is classified as exited / spinning (CPU time from /proc) / hanging.",
    note="Only clients that go away are generated. Needs loopback TCP and Unix sockets.",
    technique="fault-sequence enumeration (exhaustive to length 2, sampled beyond) with a liveness probe oracle"),
  "C01": dict(level="exploration", design="DESIGN.md §4 C01",
-   text="Discrete-event simulation of networks of real PtpInstances (2-4 nodes quick, 2-7 thorough; point-to-point links, shared segments, rings, two ports of one instance on one segment) with generated rankings (incl. clockClass < 128 and slave-only nodes), delays, jitter, BMCA phases and event tie-breaks, followed by one generated fault (cut / cut-and-restore an endpoint, silence a node, change a node's quality, toggle slave-only). The predicates of the statement (best node is the only grandmaster; every reachable slave-capable node has exactly one slave port whose parent chain reaches it with stepsRemoved decreasing by one; one master port per segment; isolated ports master; no stale slave) must hold from some point inside an explicit bound onwards, and every port state and the hierarchy part of all data sets must stay constant over the following 12 announce intervals, evaluated at every BMCA of every node.",
+   text="Discrete-event simulation of networks of real PtpInstances (2-4 nodes quick, 2-7 thorough; point-to-point links, shared segments, rings, two ports of one instance on one segment) with generated rankings (incl. clockClass < 128 and slave-only nodes), delays, jitter, BMCA phases and event tie-breaks, followed by one generated fault (cut / cut-and-restore an endpoint, silence a node, change a node's quality, toggle slave-only). The predicates of the statement (best node is the only grandmaster; no instance with clockClass < 128 has a slave port; every reachable slave-capable node has exactly one slave port whose parent chain reaches it with stepsRemoved decreasing by one; one master port per segment; isolated ports master; no stale slave) must hold from some point inside an explicit bound onwards, and every port state and the hierarchy part of all data sets must stay constant over the following 12 announce intervals, evaluated at every BMCA of every node.",
    note="Liveness as bounded-horizon safety with explicit bounds: (2*receiptTimeout+7)*(diameter+2) announce intervals, plus 510 intervals when the post-fault topology contains a cycle (IEEE 1588 count-to-infinity of a lost grandmaster's data set without path trace). Slave-only nodes are generated with clockClass 255 and a priority1 behind all master-capable nodes (a slave-only instance whose own data set wins the comparison never synchronises; the daemon does not enforce class 255 - noted in DESIGN.md).",
    technique="property-based testing over generated topologies/rankings/schedules/faults with a discrete-event simulator and graph-based oracle"),
  "C02": dict(level="exploration", design="DESIGN.md §4 C02",
-   text="Closed-loop simulation with the real slave port and the real KalmanFilter steering a simulated clock whose readings produce all of the slave's timestamps (so corrections feed back), against a synthetic one-step/two-step grandmaster; generated initial offset (+-10 s), oscillator error (+-150 ppm), symmetric delay (1-400 us), jitter (0-20 us), sync/delay intervals (2^-3..2^1 s), message interleavings (Follow_Up before Sync, transmit timestamps prompt / late / mixed). Oracle: |true offset| <= 0.5 us + 3 J from some time <= 120 s + 1000 x max(sync, delay interval) until the horizon, no step after that time, all frequency commands finite and within +-400 ppm.",
+   text="Closed-loop simulation with the real slave port and the real KalmanFilter steering a simulated clock whose readings produce all of the slave's timestamps (so corrections feed back), against a synthetic one-step/two-step grandmaster; generated initial offset (+-10 s), oscillator error (+-150 ppm), symmetric delay (1-400 us), jitter (0-20 us), sync/delay intervals (2^-3..2^1 s), message interleavings (Follow_Up before Sync, transmit timestamps prompt / late / mixed), grandmaster present from the start or appearing only after the port has become master through its receipt timeout. Oracle: |true offset| <= 0.5 us + 3 J from some time <= 120 s + 1000 x max(sync, delay interval) until the horizon, no step after that time, all frequency commands finite and within +-400 ppm.",
    note="The two constants are a stated tolerance calibrated once on the unchanged tree (10^4 runs: worst settle time 0.40 of the bound, worst residual 0.17 of the bound); degradations smaller than that head-room are not detected. No wall clock is involved.",
    technique="property-based testing of a closed-loop discrete-event simulation with a bounded-convergence oracle"),
 }
@@ -119,7 +119,7 @@ manifest = {
  },
  "engines": [
    {"name": "harness", "path": "/verif/harness", "serves_properties": sorted(CHECKS.keys()),
-    "kind_free_text": "Rust binary `vcheck` (incl. the exporter driver that spawns statime-metrics-exporter built from /repo): choice-sequence (Hypothesis-style) property-testing engine with shrinking and replay files, exhaustive lattices, reference codec/BMCA/models, host model of statime-linux's action handling"},
+    "kind_free_text": "Rust binary `vcheck` (incl. the drivers that spawn statime-metrics-exporter and the statime daemon built from /repo, the latter inside a private network namespace): choice-sequence (Hypothesis-style) property-testing engine with shrinking and replay files, exhaustive lattices, reference codec/BMCA/models, host model of statime-linux's action handling"},
  ],
  "checks": checks,
  "not_applicable": na,
